@@ -60,7 +60,8 @@ def main():
         t0 = time.time()
         a = sh('git -C /repo apply %s' % diff)
         if a.returncode:
-            print('%-45s %s  patch does not apply: %s' % (name, pid, a.stderr[:120]))
+            print('%-45s %s  STALE: patch does not apply: %s' % (name, pid, a.stderr[:120]))
+            missed += 1         # a change that cannot be applied any more tells nothing: re-create it
             continue
         try:
             r = sh('cd %s && /venv/bin/python check.py %s --tier quick' % (ROOT, pid),
